@@ -60,6 +60,7 @@ func TestC12(t *testing.T) {
 		// contexts are meant to be reused from one file to the next (rediff and the patcher do): a case
 		// is a short sequence of pairs going through the same DiffContext and the same PatchContexts
 		npairs := rapid.IntRange(1, 3).Draw(rt, "npairs")
+		sharedOld = &mutableReader{size: -1}
 		sharedDC := &bsdiff.DiffContext{}
 		sharedPC, sharedPC2 := bsdiff.NewPatchContext(), bsdiff.NewPatchContext()
 		var prevOld []byte
@@ -83,8 +84,18 @@ func c12One(t *testing.T, rt *rapid.T, pi int, sharedDC *bsdiff.DiffContext, sha
 			nw = append(append([]byte{}, old...), po[a:min(len(po), a+rapid.IntRange(1, 5000).Draw(rt, "prevl"))]...)
 			kind = "smaller-old-after-bigger"
 		}
+		if pi > 0 && len(*prevOld) > 0 && kind != "smaller-old-after-bigger" && rapid.IntRange(0, 2).Draw(rt, "samesizeasprev") == 0 {
+			// the previous old file rewritten in place: same size, some bytes changed
+			old = append([]byte{}, (*prevOld)...)
+			for f := 0; f < 1+len(old)/20000; f++ {
+				old[rapid.IntRange(0, len(old)-1).Draw(rt, "rewriteoff")] ^= 0x5a
+			}
+			nw, _, _ = applyEdits(rt, old, rapid.IntRange(0, 2).Draw(rt, "rewriteedits"), "rw")
+			kind = "previous-old-rewritten-in-place"
+		}
 		*prevOld = old
 		partitions := rapid.IntRange(0, 16).Draw(rt, "partitions")
+		_ = pi
 		conc := rapid.IntRange(-1, 4).Draw(rt, "suffixconc")
 		spec := drawSched(rt)
 		rmode := rapid.IntRange(0, 3).Draw(rt, "readmode")
@@ -145,13 +156,22 @@ func c12One(t *testing.T, rt *rapid.T, pi int, sharedDC *bsdiff.DiffContext, sha
 			Violation(rt, "C12/wrong-reconstruction", "reference application differs from new at %d (len %d vs %d) (%s)", firstDiff(ref, nw), len(ref), len(nw), setup)
 			return false
 		}
-		// real applier
+		// real applier; the old file is handed over through one long-lived reader object whose content
+		// is replaced between pairs when the size happens to be the same (a file rewritten in place)
 		var out bytes.Buffer
 		i := 0
 		pc := sharedPC
 		var perr error
+		var oldReader io.ReadSeeker = bytes.NewReader(old)
+		if sharedOld.size == len(old) && len(old) > 0 {
+			copy(sharedOld.b, old)
+			oldReader = sharedOld
+			Ev.Probe("same_reader_object_new_content_same_size")
+		} else {
+			sharedOld.b, sharedOld.size, sharedOld.pos = append([]byte{}, old...), len(old), 0
+		}
 		if p := Recover(func() {
-			perr = pc.Patch(bytes.NewReader(old), &out, int64(len(nw)), func(m proto.Message) error {
+			perr = pc.Patch(oldReader, &out, int64(len(nw)), func(m proto.Message) error {
 				if i >= len(msgs) {
 					return io.EOF
 				}
@@ -215,6 +235,39 @@ func c12One(t *testing.T, rt *rapid.T, pi int, sharedDC *bsdiff.DiffContext, sha
 		})
 	}
 	return true
+}
+
+// mutableReader is a ReadSeeker over a buffer whose content the harness may replace.
+type mutableReader struct {
+	b    []byte
+	size int
+	pos  int64
+}
+
+var sharedOld = &mutableReader{size: -1}
+
+func (m *mutableReader) Read(p []byte) (int, error) {
+	if m.pos >= int64(len(m.b)) {
+		return 0, io.EOF
+	}
+	n := copy(p, m.b[m.pos:])
+	m.pos += int64(n)
+	return n, nil
+}
+
+func (m *mutableReader) Seek(off int64, whence int) (int64, error) {
+	switch whence {
+	case io.SeekStart:
+		m.pos = off
+	case io.SeekCurrent:
+		m.pos += off
+	case io.SeekEnd:
+		m.pos = int64(len(m.b)) + off
+	}
+	if m.pos < 0 {
+		return 0, fmt.Errorf("negative seek")
+	}
+	return m.pos, nil
 }
 
 // TestC12Lru: the chunked LRU read cache behaves like a plain in-memory reader for every
